@@ -36,6 +36,7 @@ import (
 	gerrors "github.com/tochemey/goakt/v4/errors"
 	"github.com/tochemey/goakt/v4/internal/commands"
 	"github.com/tochemey/goakt/v4/internal/types"
+	"github.com/tochemey/goakt/v4/internal/verifhook"
 )
 
 const (
@@ -317,6 +318,7 @@ func (x *producerController) Receive(ctx *ReceiveContext) {
 	default:
 		ctx.Unhandled()
 	}
+	verifhook.At("reliable.producer.received", ctx, 0, 0)
 }
 
 // handlePostStart watches the producer and creates the generation-fenced
@@ -1302,6 +1304,9 @@ func (x *producerController) publishFailure(stage ReliableDeliveryStage, cause e
 // session. The debug log is therefore the only remaining action; its
 // recurrence is the observable signal of a persistently unreachable peer.
 func (x *producerController) tell(ctx *ReceiveContext, to *PID, message any) {
+	if verifhook.Enabled && verifhook.Fault("reliable.producer.tell", [3]any{ctx, to, message}, 0) != 0 {
+		return
+	}
 	if err := ctx.Self().Tell(context.WithoutCancel(ctx.Context()), to, message); err != nil {
 		ctx.Logger().Debugf("producer controller for endpoint=%s lost message to %s: %v", x.producer.Name(), to.Name(), err)
 	}
